@@ -323,6 +323,18 @@ class Prop(BaseProp):
                 compare("rerun-into-existing-output", read_tree(out_dir("rerun")), ref)
             else:
                 res.violate("variant-run-failed:rerun", str(o.exc)[:200], wit)
+            # (h1b) the same run repeated by a NEW process into the output directory the reference run just filled: nothing that
+            #       is there stays, nothing goes
+            if idx % 3 == 1 and os.path.isdir(out_dir("ref")):
+                import shutil as _sh2
+                _sh2.copytree(out_dir("ref"), out_dir("refagain"))
+                rc, so, se = runner.run_cli([target(loc1), "-o", out_dir("refagain")] + flags, cwd=sb, home=home,
+                                            env_extra={"PYTHONHASHSEED": "0"})
+                res.count("fresh_interpreter_runs")
+                if rc != 0:
+                    res.violate("variant-run-failed:rerun-by-a-new-process", se[-300:], wit)
+                else:
+                    compare("rerun-by-a-new-process-into-the-same-output", read_tree(out_dir("refagain")), ref)
             # (h2) ... or a revision that differed from the present one in white space only (indentation of doccomment
             #      lines, additional empty doccomment lines): the pages on disk afterwards are those of the present contents
             import re as _re
